@@ -193,7 +193,11 @@ pub fn execute(model: &Model, sim_seed: u64) -> Outcome {
                 );
             }
         }
-        let rt = Builder::seeded(sim_seed).quiet().max_itr(20_000).build(sim.freeze());
+        let mut rt = Builder::seeded(sim_seed).quiet().max_itr(20_000).build(sim.freeze());
+        // the runtime handle's own entry points to the seeded generator (driver code between build and run)
+        let a: u64 = rt.random();
+        let b: u32 = rt.rng_sample(Uniform::new(0u32, 1_000_000).unwrap());
+        tr(format!("driver drew {a} {b}"));
         match rt.run() {
             Ok((_, t, p)) => format!("ok end={} events={} remaining={}", t.as_nanos(), p.event_count, p.remaining.len()),
             Err(e) => format!("err entries={}", e.len()),
